@@ -84,6 +84,12 @@ func panicValue(name string) (v any, abort bool, broken bool) {
 		return &net.OpError{Op: "write", Net: "tcp", Err: &os.SyscallError{Syscall: "write", Err: syscall.EPIPE}}, false, true
 	case "econnreset":
 		return &net.OpError{Op: "read", Net: "tcp", Err: &os.SyscallError{Syscall: "read", Err: syscall.ECONNRESET}}, false, true
+	case "epipe-text":
+		return &net.OpError{Op: "write", Net: "tcp", Err: &os.SyscallError{Syscall: "write", Err: errors.New("broken pipe")}}, false, true
+	case "econnreset-text":
+		return &net.OpError{Op: "read", Net: "tcp", Err: &os.SyscallError{Syscall: "read", Err: errors.New("Connection reset by peer")}}, false, true
+	case "epipe-wrapped-syscall":
+		return &net.OpError{Op: "write", Net: "tcp", Err: fmt.Errorf("sendfile: %w", &os.SyscallError{Syscall: "write", Err: syscall.EPIPE})}, false, true
 	case "econnrefused":
 		return &net.OpError{Op: "dial", Net: "tcp", Err: &os.SyscallError{Syscall: "connect", Err: syscall.ECONNREFUSED}}, false, false
 	case "operror-no-syscall":
@@ -92,7 +98,7 @@ func panicValue(name string) (v any, abort bool, broken bool) {
 	return "boom", false, false
 }
 
-var values = []string{"string", "error", "wrapped-error", "nil-like", "int", "custom", "runtime-error", "abort", "abort-wrapped", "epipe", "econnreset", "econnrefused", "operror-no-syscall"}
+var values = []string{"string", "error", "wrapped-error", "nil-like", "int", "custom", "runtime-error", "abort", "abort-wrapped", "epipe", "econnreset", "epipe-text", "econnreset-text", "epipe-wrapped-syscall", "econnrefused", "operror-no-syscall"}
 
 var raised int
 
